@@ -89,6 +89,8 @@ CONSTANTS Alphabet,        \* code points the values are built from
           MaxLen,          \* longest value
           Emit,            \* TRUE: print CASE lines
           LemmaLen,        \* the size lemmas are checked for values up to this length
+          GpgLen,          \* the class / constructor dimension of the read-back is computed up to this length
+          StrictDroppedInGpgClasses, PosStrictMissedByPrepass,   \* see Ways
           ZoneWhatIf,      \* TRUE: also compute the read-backs of "zone" values as if they were accepted
           NoIndentRule, AllowEndLF, ValidateLFOnly, ReaderNoWsRule   \* negative controls (FALSE)
 
@@ -282,29 +284,46 @@ Assemble(ls, i, key, content, a) ==
             ELSE IF m.kind = "multidata" THEN Assemble(ls, i + 1, key, content \o <<LF>> \o l, a)
             ELSE Assemble(ls, i + 1, key, content, a)
 
-\* _skip_useless_lines + split_gpg_and_payload for one paragraph, from raw line j
-RECURSIVE ReadPara(_, _, _, _, _, _)
-ReadPara(ls, ws, j, atBeg, first, pay) ==
+\* split_gpg_and_payload for one paragraph, from raw line j; su = the lines come through
+\* _skip_useless_lines first (the field parser), su = FALSE: the raw pre-pass of the gpg-aware
+\* classes (no comment skipping)
+RECURSIVE ReadPara(_, _, _, _, _, _, _)
+ReadPara(ls, ws, j, atBeg, first, pay, su) ==
     IF j > Len(ls) THEN [next |-> j, pay |-> pay, pgp |-> FALSE]
     ELSE LET raw == ls[j] IN
-         IF StartsWithHash(raw) THEN ReadPara(ls, ws, j + 1, atBeg, first, pay)
-         ELSE IF atBeg /\ OnlyCRLF(raw) THEN ReadPara(ls, ws, j + 1, TRUE, first, pay)
+         IF su /\ StartsWithHash(raw) THEN ReadPara(ls, ws, j + 1, atBeg, first, pay, su)
+         ELSE IF su /\ atBeg /\ OnlyCRLF(raw) THEN ReadPara(ls, ws, j + 1, TRUE, first, pay, su)
          ELSE LET l == StripCRLF(raw) IN
-              IF first /\ AllBytesWs(l) THEN ReadPara(ls, ws, j + 1, FALSE, TRUE, pay)
+              IF first /\ AllBytesWs(l) THEN ReadPara(ls, ws, j + 1, FALSE, TRUE, pay, su)
               ELSE IF IsPgpLine(l) THEN [next |-> j + 1, pay |-> pay, pgp |-> TRUE]
-              ELSE IF ~IsBlank(l, ws) THEN ReadPara(ls, ws, j + 1, FALSE, FALSE, Append(pay, l))
+              ELSE IF ~IsBlank(l, ws) THEN ReadPara(ls, ws, j + 1, FALSE, FALSE, Append(pay, l), su)
               ELSE [next |-> j + 1, pay |-> pay, pgp |-> FALSE]
 
-\* iter_paragraphs: stop at the first paragraph without fields (EOFError or nothing recognised)
-RECURSIVE ReadParas(_, _, _, _)
-ReadParas(ls, ws, j, acc) ==
-    LET r == ReadPara(ls, ws, j, TRUE, TRUE, <<>>) IN
-    IF r.pgp THEN [st |-> "pgp", paras |-> acc]
-    ELSE IF r.pay = <<>> THEN [st |-> "ok", paras |-> acc]
-    ELSE LET a == Assemble(r.pay, 1, <<>>, <<>>, [st |-> "ok", fields |-> <<>>]) IN
-         IF a.st # "ok" THEN [st |-> a.st, paras |-> acc]
-         ELSE IF a.fields = <<>> THEN [st |-> "ok", paras |-> acc]
-         ELSE ReadParas(ls, ws, r.next, Append(acc, a.fields))
+NoFields == [st |-> "ok", fields |-> <<>>]
+\* Deb822.__init__(lines, strict): _internal_parser reads ONE paragraph from raw line j
+PlainPara(ls, ws, j) ==
+    LET r == ReadPara(ls, ws, j, TRUE, TRUE, <<>>, TRUE) IN
+    IF r.pgp THEN [st |-> "pgp", fields |-> <<>>, next |-> r.next]
+    ELSE IF r.pay = <<>> THEN [st |-> "ok", fields |-> <<>>, next |-> r.next]        \* EOFError, swallowed
+    ELSE LET a == Assemble(r.pay, 1, <<>>, <<>>, NoFields) IN [st |-> a.st, fields |-> a.fields, next |-> r.next]
+\* _gpg_multivalued.__init__(lines, strict) (Dsc, Changes, BuildInfo): a PRE-PASS with
+\* split_gpg_and_payload cuts one paragraph out of the raw lines (setting wsPre = the strict
+\* found among the KEYWORD arguments), its payload is then parsed like above (setting wsParse)
+GpgPara(ls, wsPre, wsParse, j) ==
+    LET pre == ReadPara(ls, wsPre, j, FALSE, TRUE, <<>>, FALSE) IN
+    IF pre.pgp THEN [st |-> "pgp", fields |-> <<>>, next |-> pre.next]
+    ELSE LET r == PlainPara(pre.pay, wsParse, 1) IN [st |-> r.st, fields |-> r.fields, next |-> pre.next]
+
+\* Cls.iter_paragraphs: objects are built from the shared line iterator until one is empty
+RECURSIVE IterParas(_, _, _, _, _, _)
+IterParas(ls, gpg, wsPre, wsParse, j, acc) ==
+    LET r == IF gpg THEN GpgPara(ls, wsPre, wsParse, j) ELSE PlainPara(ls, wsParse, j) IN
+    IF r.st # "ok" THEN [st |-> r.st, paras |-> acc]
+    ELSE IF r.fields = <<>> THEN [st |-> "ok", paras |-> acc]
+    ELSE IterParas(ls, gpg, wsPre, wsParse, r.next, Append(acc, r.fields))
+ReadParas(ls, ws, j, acc) == IterParas(ls, FALSE, ws, ws, j, acc)      \* Deb822.iter_paragraphs
+\* Cls(x, strict): the object built from the first paragraph
+CtorObj(r) == [st |-> r.st, paras |-> << r.fields >>]
 
 RawLines(text, form) == IF form = "str" THEN SplitLines(text) ELSE FileLines(text)
 ReadBack(text, form, ws) == ReadParas(RawLines(text, form), ws, 1, <<>>)
@@ -316,14 +335,44 @@ Forms == {"str", "file"}
 \* no line that reaches the regexes has an LF in it, no armor line
 LinesCleanL(rl) == \A i \in 1..Len(rl) : LET l == StripCRLF(rl[i]) IN
                                           ~IsPgpLine(l) /\ \A j \in 1..Len(l) : l[j] # LF
-\* all read-backs of paragraph q (and whether its lines are clean), sharing the dump and the split
-ObsAndClean(q) == LET t  == Dump(q)
+AllNoBlank(q) == \A i \in 1..Len(q) : NoBlankCont(q[i].v)
+\* how the strict argument reaches the two stages of a gpg-aware class
+\*   StrictDroppedInGpgClasses (negative control, seeded change E): strict is used by the pre-pass
+\*     but no longer forwarded to Deb822.__init__: the field parser runs with the default
+\*   PosStrictMissedByPrepass (KNOWN DEVIATION of the code, off in the property configurations):
+\*     the pre-pass looks strict up among the keyword arguments only, so a strict passed
+\*     POSITIONALLY reaches the field parser but not the pre-pass
+WsParseG(w)    == IF StrictDroppedInGpgClasses THEN TRUE ELSE w
+WsPreG(w, pass) == IF pass = "pos" /\ PosStrictMissedByPrepass THEN TRUE ELSE w
+Passes == IF PosStrictMissedByPrepass THEN {"kw", "pos"} ELSE {"kw"}
+\* every way the library offers to read a dump back, for the two kinds of class:
+\*   it[f][w]      Cls.iter_paragraphs(x, strict) for Deb822 / Release / PdiffIndex (= obs)
+\*   pc[f][w]      Cls(x, strict)                 for the same classes
+\*   gi[f][w]      Cls.iter_paragraphs(x, strict) for Dsc / Changes / BuildInfo
+\*   gcs[w]        Cls(str or bytes, strict)      for those (no pre-pass)
+\*   gcl[f][w][pass]  Cls(list or file, strict)   for those (pre-pass); a list made with
+\*                 text.splitlines(True) has the lines of the "str" form, a file those of "file"
+Ways(ls) ==
+    [pc  |-> [f \in Forms |-> [w \in BOOLEAN |-> Obs(CtorObj(PlainPara(ls[f], w, 1)))]],
+     gi  |-> [f \in Forms |-> [w \in BOOLEAN |-> Obs(IterParas(ls[f], TRUE, w, WsParseG(w), 1, <<>>))]],
+     gcs |-> [w \in BOOLEAN |-> Obs(CtorObj(PlainPara(ls["str"], WsParseG(w), 1)))],
+     gcl |-> [f \in Forms |-> [w \in BOOLEAN |-> [p \in Passes |->
+                Obs(CtorObj(GpgPara(ls[f], WsPreG(w, p), WsParseG(w), 1)))]]]]
+WaysSound(q, y) == \A w \in BOOLEAN : (w => AllNoBlank(q)) =>
+                      /\ \A f \in Forms : y.pc[f][w] = OneParagraph(q) /\ y.gi[f][w] = OneParagraph(q)
+                      /\ y.gcs[w] = OneParagraph(q)
+                      /\ \A f \in Forms, p \in Passes : y.gcl[f][w][p] = OneParagraph(q)
+\* all read-backs of paragraph q (and whether its lines are clean), sharing the dump and the split;
+\* the class / constructor dimension only when `full`
+ObsAndCleanF(q, full) ==
+                  LET t  == Dump(q)
                       ls == [f \in Forms |-> RawLines(t, f)]
                   IN [obs   |-> [f \in Forms |-> [w \in BOOLEAN |-> Obs(ReadParas(ls[f], w, 1, <<>>))]],
+                      ways  |-> IF full THEN Ways(ls) ELSE <<>>,
                       clean |-> \A f \in Forms : LinesCleanL(ls[f])]
+ObsAndClean(q) == ObsAndCleanF(q, FALSE)
 ObsAll(q) == ObsAndClean(q).obs
 \* the statement's obligation for a paragraph q that now holds an accepted value
-AllNoBlank(q) == \A i \in 1..Len(q) : NoBlankCont(q[i].v)
 SoundObs(q, o) == \A f \in Forms : /\ o[f][FALSE] = OneParagraph(q)
                                    /\ AllNoBlank(q) => o[f][TRUE] = OneParagraph(q)
 ----------------------------------------------------------------------------
@@ -335,9 +384,10 @@ Positions == 1..Len(P0)
 \* read-backs are computed for every value that is accepted, and -- "what if it were
 \* accepted" -- for the unspecified zone
 Observe(v) == IF Accept(v) \/ (ZoneWhatIf /\ Classify(v) = "zone")
-              THEN [pos \in Positions |-> ObsAndClean(Stored(P0, pos, v))]
+              THEN [pos \in Positions |-> ObsAndCleanF(Stored(P0, pos, v), Len(v) <= GpgLen)]
               ELSE <<>>
-SoundIfStored(v, o) == \A pos \in Positions : SoundObs(Stored(P0, pos, v), o[pos].obs)
+SoundIfStored(v, o) == \A pos \in Positions : /\ SoundObs(Stored(P0, pos, v), o[pos].obs)
+                                               /\ Len(v) <= GpgLen => WaysSound(Stored(P0, pos, v), o[pos].ways)
 
 \* diagnostic part of a CASE line: default-setting read-backs the statement does not decide
 DiagWs(v, o) == IF Accept(v) /\ BlankCont(v)
